@@ -1,3 +1,8 @@
+// The library draws from the global math/rand source (randomBalancer, backoff
+// jitter); RunOne re-seeds it per run, which only has an effect with the
+// pre-1.24 semantics of rand.Seed.
+//
+//go:debug randseednop=0
 package sim
 
 import (
